@@ -52,6 +52,7 @@ Definition js_stmt_text (fm : bool) (en : env) (props : list string) (s : stmt) 
   | SSetThe k i v => pp_js (to_js fm en (EThe k i)) ++ " = " ++ pp_js (to_js fm en v)
   | SSetAcc _ _ _ => ""      (* outside the JavaScript theorems, like EAcc *)
   | SSetMenu pid it mn v => pp_js (to_js fm en (EMenu pid it mn)) ++ " = " ++ pp_js (to_js fm en v)
+  | SExit => "exit()"
   end.
 
 Definition js_ok_s (en : env) (props : list string) (s : stmt) : Prop :=
@@ -69,6 +70,7 @@ Definition js_ok_s (en : env) (props : list string) (s : stmt) : Prop :=
   | SSetThe k i v => js_ok en (EThe k i) /\ js_ok en v
   | SSetAcc _ _ _ => False
   | SSetMenu pid it mn v => js_ok en (EMenu pid it mn) /\ js_ok en v
+  | SExit => True
   end.
 
 Lemma js_args_text fm en l : js_ok_args en l -> forall pc ind,
@@ -83,7 +85,7 @@ Qed.
 Theorem js_stmt_line fm en props s : js_ok_s en props s -> forall pc ind,
   gen_js (reify_s en props pc s) ind fm = js_line ind (js_stmt_text fm en props s).
 Proof.
-  destruct s as [t e|f args|f args|fam pid o v|tk ti tv|an ao av|mp mi mm mv]; intros Hok pc ind; [| | | | |destruct Hok|].
+  destruct s as [t e|f args|f args|fam pid o v|tk ti tv|an ao av|mp mi mm mv|]; intros Hok pc ind; [| | | | |destruct Hok| |destruct fm; reflexivity].
   6:{ destruct Hok as (Hk & Hv). cbn [reify_s js_stmt_text].
       pose proof (gen_js_is_pp fm en (EMenu mp mi mm) Hk pc ind) as Hl. cbn [reify_e] in Hl.
       assert (Hl' : forall p1 p2 l r ls rs, gen_js l ind fm = ls -> gen_js r ind fm = rs ->
